@@ -182,9 +182,15 @@ def rename_contract(lib, key, fdef):
     cur = ordered_locals(fdef)
     if cur == rec or len(cur) != len(rec):
         return c, {}
+    # names that disappeared are matched, in order of first binding, with the names that appeared; names that are still there keep
+    # their meaning even if the ORDER of first binding changed (two initialisations swapped is not a renaming).
     # `result` in a contract always means the returned value, never a local that happens to be called result
-    mapping = {o: n for o, n in zip(rec, cur) if o != n and o != 'result'}
-    if not mapping or set(mapping.values()) & (set(rec) - set(mapping)):
+    removed = [o for o in rec if o not in cur]
+    added = [n_ for n_ in cur if n_ not in rec]
+    if len(removed) != len(added):
+        return c, {}
+    mapping = {o: n_ for o, n_ in zip(removed, added) if o != 'result'}
+    if not mapping:
         return c, {}
     raw = copy.deepcopy(lib.raw_contracts[key])
     pat = re.compile(r'(?<![\w.\'"])(%s)(?![\w\'"])' % '|'.join(re.escape(o) for o in sorted(mapping, key=len, reverse=True)))
